@@ -177,7 +177,7 @@ fn step(m: &mut FreeSpaceManager, bits: Bits, d: u64, call: Call) -> Result<Bits
 }
 
 pub fn run(tier: &str, report: &mut Report) {
-    let sizes: Vec<u64> = if tier == "thorough" { vec![3, 6, 9, 12] } else { vec![3, 6, 9] };
+    let sizes: Vec<u64> = if tier == "thorough" { vec![3, 6, 9, 12, 14, 16] } else { vec![3, 6, 9, 12] };
     let threads = crate::util::worker_threads();
     let mut exhaustive = true;
     for &d in &sizes {
